@@ -4,7 +4,7 @@ from __future__ import annotations
 from typing import Dict, Iterable, List, Optional, Set, Tuple
 
 from ..effects import AV, ELEM, Effect, Effects, Summary, fmt_origin, State, _Interp
-from ..model import Func, Program
+from ..model import AnalysisError, Func, Program
 
 def engine(prog: Program) -> Effects:
     """One effect engine per program model (cached on the model object)."""
@@ -101,6 +101,7 @@ def pkg_call_hook(prog: Program, mod, self_cls=None, self_name: str = "self"):
         if f is None:
             return None
         names = f.params[1:] if skip else list(f.params)
+        names = names + [k for k in f.kwonly if k not in names]       # keyword-only parameters follow, in declaration order
         bound = bind_call(call, f.params, skip_first=skip)
         defaults = f.defaults()
         args = [recv] if recv is not None else []
